@@ -44,7 +44,7 @@ def gen_case(r, index, tier):
     H = max(2, int(round(W * r.choice([0.2, 0.5, 0.75, 1, 1, 1.5, 2, 5]))))
     die = {"family": r.choice(["dyadic", "decimal"]), "scale_exp": r.weighted([(0, 6), (1, 3), (3, 1), (9, 1), (-3, 1), (-4, 1)]), "nx": W, "ny": H,
            "regions": []}
-    nmov = r.randint(4, 9)
+    nmov = r.randint(4, 9) if r.chance(0.95) else r.randint(12, 30)
     nl = designs.gen_netlist(r, die, nmods=nmov + r.randint(0, 3), kinds=["soft", "soft", "soft", "hard", "fixed"],
                              allow_terminals=False, need_centers=True, connected=True, min_movable=nmov, allow_regions=False)
     # pinned terminals (fixed, with a centre) are fixed modules too; movable terminals are outside C14's quantifier
